@@ -48,6 +48,8 @@ Leaf(i) == CASE i = 1 -> F(1, 2)      \* 0.5    tol 0: 0.0
              [] i = 12 -> F(35, 2)    \* 17.5   tol -1: 20.0
              [] i = 13 -> F(-5, 2)    \* -2.5   tol 0: -2.0 (tie)
              [] i = 14 -> F(-3, 2)    \* -1.5   tol 0: -2.0 (tie)
+             [] i = 15 -> F(-1, 32)   \* -0.03125  tol 1: -0.0   tol 2: -0.03   (used only where no leaf rounds to +0.0:
+             [] i = 16 -> F(-1, 64)   \* -0.015625 tol 1: -0.0   tol 2: -0.02    whether -0.0 and 0.0 share a key is the encoder's business)
              [] i = 21 -> I(2)
              [] i = 22 -> I(15)
              [] i = 23 -> Str(100)    \* 'a'
